@@ -10,3 +10,10 @@ Example gen_min_alloc : Z.to_N Gen.min_possible_allocations = min_alloc. Proof. 
 Example gen_max_alloc : Z.to_N Gen.max_possible_allocations = max_alloc. Proof. reflexivity. Qed.
 Example gen_page_size : Z.to_N Gen.page_size = Model.page_size. Proof. reflexivity. Qed.
 Example gen_max_wasm_pages : Z.to_N Gen.max_wasm_pages = Model.max_wasm_pages. Proof. reflexivity. Qed.
+
+(* the occupied-bit mask is a literal in readHeaderFromMemory / writeHeaderInto (0x00000001_00000000),
+   not a named constant, so Gen.v cannot carry it; the model's mask is bit 32 exactly, and the `cst`
+   case of the harness compares the raw header words found in memory with [encode_header] *)
+Example occ_mask_is_bit32 : occ_mask = (2 ^ 32)%N /\ N.testbit occ_mask 32 = true /\ (occ_mask mod two32 = 0)%N.
+Proof. repeat split. Qed.
+Example nil_marker_is_max_u32 : nil_marker = (2 ^ 32 - 1)%N. Proof. reflexivity. Qed.
